@@ -1,0 +1,56 @@
+//! Verification seams (only compiled with the `verif-hooks` feature).
+//!
+//! They let an external explorer own the two environment reads this crate
+//! performs: the wall clock used by timestamp proofs and the entropy used to
+//! seed the CS-PRNG. With no override installed the crate behaves exactly as
+//! without the feature.
+use std::cell::{Cell, RefCell};
+use std::collections::VecDeque;
+
+thread_local! {
+    static CLOCK_MS: Cell<Option<u64>> = const { Cell::new(None) };
+    static ENTROPY: RefCell<Option<VecDeque<[u8; 32]>>> = const { RefCell::new(None) };
+    static DRAWS: Cell<u64> = const { Cell::new(0) };
+}
+
+/// Override (or with `None` restore) the clock, in milliseconds since the unix epoch,
+/// for the current thread
+pub fn set_clock_ms(ms: Option<u64>) {
+    CLOCK_MS.with(|c| c.set(ms));
+}
+
+/// The overridden clock for the current thread, if any
+pub fn clock_ms() -> Option<u64> {
+    CLOCK_MS.with(|c| c.get())
+}
+
+/// Install (or with `None` remove) the queue of entropy answers for the current thread.
+/// Each request for a fresh CS-PRNG pops one answer; when the queue is installed
+/// but empty the answer is derived from the draw counter so it never repeats.
+pub fn set_entropy(answers: Option<Vec<[u8; 32]>>) {
+    ENTROPY.with(|e| *e.borrow_mut() = answers.map(VecDeque::from));
+    DRAWS.with(|d| d.set(0));
+}
+
+/// Number of entropy requests observed on this thread since the last `set_entropy`
+pub fn entropy_draws() -> u64 {
+    DRAWS.with(|d| d.get())
+}
+
+/// The next entropy answer, if an override is installed
+pub fn next_seed() -> Option<[u8; 32]> {
+    let n = DRAWS.with(|d| {
+        let n = d.get();
+        d.set(n + 1);
+        n
+    });
+    ENTROPY.with(|e| {
+        e.borrow_mut().as_mut().map(|q| {
+            q.pop_front().unwrap_or_else(|| {
+                let mut s = [0xA5u8; 32];
+                s[..8].copy_from_slice(&n.to_le_bytes());
+                s
+            })
+        })
+    })
+}
